@@ -190,6 +190,27 @@ func cmdRel13(args []string) {
 			atomic.AddInt64(&vectors, 2)
 		}
 	})
+	// v3, exported fields assigned directly on a decoded object (environmental metrics all Not Defined)
+	parallelFor(nb*2, workers, func(w, i int) {
+		rec := recs[w]
+		ver := v3Versions[i%2]
+		var v v3Vec
+		v3SetFromIndex(&v, 0, v3NBase, i/2)
+		scope := v3Defs[4].Codes[v[4]].Code
+		em, err := m3.NewEnvironmental().Decode(v3Join(ver.Label, v3Tokens(&v, 8, 0)))
+		if err != nil {
+			return
+		}
+		for ti := 0; ti < 100; ti++ {
+			v3SetFromIndex(&v, 8, 11, ti)
+			for k := 8; k < 11; k++ {
+				v3SetField(em, k, v3Defs[k].Codes[v[k]].C)
+			}
+			rec.Add(relBody("envAllND=temporal", ver.Label, scope, em.Score(), em.TemporalMetrics().Score()), "assign E/RL/RC on "+em.String())
+			rec.Add(relBody("temporal<=base", ver.Label, scope, em.TemporalMetrics().Score(), em.BaseMetrics().Score()), "assign E/RL/RC on "+em.String())
+			atomic.AddInt64(&vectors, 1)
+		}
+	})
 	// v2
 	nb2 := v2Count(0, 6)
 	nt2 := v2Count(6, 9)
